@@ -296,6 +296,8 @@ fn alphabet(kinds: &[usize]) -> Vec<Act> {
         let mut anchors: Vec<Option<String>> = vec![None];
         anchors.extend(ids.iter().cloned().map(Some));
         anchors.push(Some(missing.to_owned()));
+        // the empty string names no rule either (and is not "no anchor")
+        anchors.push(Some(String::new()));
         anchors.push(Some(default_id_of(kind).to_owned()));
         for id in &ids {
             for after in &anchors {
